@@ -668,6 +668,7 @@ class Ctx:
         self.n_unknown_feas = 0
         self.fmod_K = 3
         self.argsort_mode = "fork"
+        self.abstract_mul = False
         self.bound_notes = set()
         self.queue = []
         self._fresh = 0
@@ -841,6 +842,10 @@ class Ctx:
             elif op == "sub":
                 e = z3.fpSub(RNE, a.e, b.e)
             elif op == "mul":
+                if self.abstract_mul and not _is_const(a) and not _is_const(b):
+                    # cut-point: symbolic x symbolic products are replaced by an unconstrained float64 (over-approximation)
+                    self.bound_notes.add("symbolic*symbolic float products abstracted to unconstrained values (over-approximation)")
+                    return SFloat(None, False, z3.BitVec(self.fresh_name("absmul"), 64))
                 e = z3.fpMul(RNE, a.e, b.e)
             elif op == "div":
                 e = z3.fpDiv(RNE, a.e, b.e)
@@ -895,6 +900,11 @@ class Ctx:
             "ne": lambda x, y: x != y,
         }[op]
         return mk_bool(f(a.e, b.e))
+
+
+def _is_const(x):
+    t = x._b if x._b is not None else x._e
+    return z3.is_bv_value(t) or z3.is_fp_value(t) if t is not None else False
 
 
 def _cmp_inf(op, a, b):
